@@ -490,6 +490,23 @@ def auto_cycle_programs():
                     [pg.Impl(0, ("Send", (A("NotSend"),)), [], positive=False)], "seeded-auto-cycle-%d" % k)
         goals = [("atom", ("Send", (A(x),))) for x in ("Node", "Edge", "Label")]
         out.append((p, goals))
+    # nested cycles whose inner head turns ambiguous in its FIRST iteration (two impls) while it is not
+    # the head of its component; the outer head then needs the node evaluated against the stale value.
+    # Non-ground goals; to be answered the same with the cache on and off, fresh and after a history.
+    v = pg.var
+    ex = lambda tr: ("exists", (1,), ("atom", (tr, (v(1),))))
+    p = pg.Prog([pg.Adt("A"), pg.Adt("B"), pg.Adt("S", 1), pg.Adt("W", 1)], [pg.Trait("Foo"), pg.Trait("Bar"), pg.Trait("Top")],
+                [pg.Impl(0, ("Foo", (A("A"),))), pg.Impl(0, ("Foo", (A("B"),))),
+                 pg.Impl(1, ("Foo", (A("S", v(0)),)), [("Bar", (v(0),))]),
+                 pg.Impl(1, ("Foo", (A("W", v(0)),)), [("Top", (v(0),))]),
+                 pg.Impl(1, ("Bar", (v(0),)), [("Foo", (v(0),))]),
+                 pg.Impl(1, ("Top", (v(0),)), [("Bar", (v(0),)), ("Foo", (v(0),))])], "seeded-nested-amb")
+    out.append((p, [ex("Top"), ex("Bar"), ex("Foo"), ("atom", ("Top", (A("A"),)))]))
+    p = pg.Prog([pg.Adt("A"), pg.Adt("B"), pg.Adt("W", 1)], [pg.Trait("Foo"), pg.Trait("Bar")],
+                [pg.Impl(0, ("Foo", (A("A"),))), pg.Impl(0, ("Foo", (A("B"),))),
+                 pg.Impl(1, ("Foo", (A("W", v(0)),)), [("Bar", (v(0),))]),
+                 pg.Impl(1, ("Bar", (v(0),)), [("Foo", (v(0),))])], "seeded-amb-first-iteration")
+    out.append((p, [ex("Foo"), ex("Bar"), ("atom", ("Bar", (A("A"),)))]))
     return out
 
 
